@@ -1,3 +1,4 @@
+pub mod c12;
 pub mod c16;
 pub mod chain;
 
